@@ -9,6 +9,9 @@ claimed = {
  "C06": dict(cat="proof", sec="7/C06",
    text="Deductive proof, for all endpoint lists/statuses/priorities/connection snapshots and all loop iterations, of: the tier rule of PrioritySelector.Select (result routable, member of input, priority >= every routable candidate), the round-robin ticket formula on the value returned by the single atomic add plus the fairness lemmas (closed-form count, base/step/window), and the minimality rule of LeastConnectionsSelector.Select w.r.t. its one connection snapshot; Increment/Decrement = exactly one RecordConnection(+/-1).",
    note="Concurrency only through device (ii) atomic-once on RoundRobinSelector.counter (atomicity of AddUint64 trusted); sort.Slice and math/rand are trusted models; probabilistic 'every tier member is eventually picked' is not decided (only positive weight of every routable status is proved); round-robin fairness across the 2^64 wrap excluded."),
+ "C08": dict(cat="proof", sec="7/C08",
+   text="Deductive proof that each of the three breakers implements the reference automaton of the statement, per operation and for all field values and clock readings: representation invariants (e.g. open => failures >= threshold) preserved by every operation under contract, opens iff the consecutive-failure threshold is reached, reports open while the timeout has not elapsed since the last failure, admits again afterwards (health: stamped admission => at most one probe per second; unifier: admitted iff probes asked <= configured number), closes on success / re-opens on a failed probe, success clears the count; hence no history (any length) leaves the automaton outside the invariant.",
+   note="Sequential proofs; racing callers are covered only where a single atomic read-modify-write decides (atomic-once on unifier.halfOpenRequests); the unifier open->half-open transition race and olla's unlimited half-open admissions are not decided. xsync.Map is a trusted mathematical-map model; the clock is monotone; unifier configuration precondition cfgOK is proved for DefaultConfig only. One genuine defect (health breaker never refreshed its probe stamp) was found by ensures.5 of health.CircuitBreaker.IsOpen, confirmed by replay, and repaired by a fix: commit."),
 }
 not_applicable = {}
 props = [json.loads(l) for l in open('/verif/properties.jsonl')]
